@@ -74,6 +74,12 @@ func (t *Term) APOf() (string, bool) {
 		return "p:" + t.S, true
 	case "load", "free", "global":
 		return t.S, true
+	case "call", "phi":
+		if t.V != nil {
+			if a := AP(t.V); !strings.HasPrefix(a, "?") {
+				return a, true
+			}
+		}
 	}
 	return "", false
 }
@@ -453,7 +459,7 @@ func substitute(t *Term, f *ssa.Function, args []*Term) *Term {
 	}
 	var sub func(t *Term) *Term
 	sub = func(t *Term) *Term {
-		if a, ok := t.APOf(); ok {
+		if a, ok := t.APOf(); ok && len(t.Args) == 0 {
 			for pa, i := range paramIdx {
 				if i >= len(args) {
 					continue
